@@ -488,4 +488,58 @@ theorem extractNum_fracText (s f : Nat) (hs : 100000000 ≤ s) (hs2 : s < 100000
   simp only [hpi, hpf, hu, isMilli_false (v := (s : Int)) (by omega), Bool.not_false, Bool.true_or, Bool.and_self, if_true]
   exact mulRound_fact (1000 * s + f) q1 j1 (by omega) hj hq hlo hhi
 
+/-! Splunk HEC: the envelope's `time` is a positive binary64 for every instant of the seconds window -/
+
+/-- `<s>.<fff>` reads as a positive binary64 -/
+theorem jpParseFloat_fracText_pos (s f : Nat) (hs : 1 ≤ s) (hs2 : s < 10000000000) (hf : f < 1000) :
+    ∃ q x, jpParseFloat (fracText s f) = some ⟨false, q, x⟩ ∧ q ≠ 0 := by
+  refine ⟨_, _, jpParseFloat_fracText s f hs hs2 hf, ?_⟩
+  obtain ⟨j1, hj, _, hlo, _⟩ := round1_facts (1000 * s + f) (by omega) (by omega)
+  intro h0
+  rw [h0] at hlo
+  have h18 : 2 ^ 18 ≤ 2 ^ j1 := Nat.pow_le_pow_right (by decide) hj
+  have : (1000 * s + f) * 2 ^ 18 ≤ (1000 * s + f) * 2 ^ j1 := Nat.mul_le_mul_left _ h18
+  have : (2:Nat) ^ 18 = 262144 := by decide
+  omega
+
+theorem parseDec_dec (n : Nat) : parseDec (dec n) = some (false, n, 0, 0) := by
+  obtain ⟨c, r, hcr, hc⟩ := dec_head n
+  have hss : stripSign (dec n) = (false, dec n) := stripSign_dec n
+  have htd : takeDigits (dec n) = (dec n, []) := by
+    have := takeDigits_append (dec n) [] (fun c h => isDig_of_mem_dec h) rfl
+    simpa using this
+  have hne : (dec n).isEmpty = false := by rw [hcr]; rfl
+  unfold parseDec
+  simp only [hss, htd, List.head?_nil, reduceCtorEq, beq_iff_eq, if_false, List.append_nil, hne,
+    Bool.false_eq_true, ofDigitChars_dec, List.length_nil]
+
+/-- a whole number of seconds `<s>` reads as a positive binary64 -/
+theorem jpParseFloat_dec_pos (s : Nat) (hs : 1 ≤ s) (hs2 : s < 10000000000) :
+    ∃ q x, jpParseFloat (dec s) = some ⟨false, q, x⟩ ∧ q ≠ 0 := by
+  have hm0 : ¬ (s = 0) := by omega
+  have hlen2 : (Nat.toDigits 10 s).length ≤ 10 :=
+    (Nat.length_toDigits_le_iff (by decide) (by decide)).2 (by
+      have : (10:Nat) ^ 10 = 10000000000 := by decide
+      omega)
+  have hx : ulpExp (s * 10 ^ 0) 1 ≤ ((33 : Nat) : Int) - ((0 : Nat) : Int) - 52 :=
+    ulpExp_le_gen (s * 10 ^ 0) 1 33 0 (by omega) (by omega) (by
+      have : (2:Nat) ^ (33 + 1) = 17179869184 := by decide
+      omega) (by decide) (by omega)
+  generalize hxe : ulpExp (s * 10 ^ 0) 1 = x at hx
+  have hneg : ¬ (x ≥ 0) := by omega
+  refine ⟨roundAt (s * 10 ^ 0) 1 x, x, ?_, ?_⟩
+  · unfold jpParseFloat
+    rw [parseDec_dec s]
+    have e1 : ¬ (((Nat.toDigits 10 s).length : Int) + ((0:Int) - ((0:Nat):Int)) > 310) := by omega
+    have e2 : ¬ (((Nat.toDigits 10 s).length : Int) + ((0:Int) - ((0:Nat):Int)) < -330) := by omega
+    have e3 : ((0:Int) - ((0:Nat):Int) ≥ 0) := by omega
+    have e4 : ((0:Int) - ((0:Nat):Int)).toNat = 0 := by decide
+    have hov : overflows (roundAt (s * 10 ^ 0) 1 x) x = false := by
+      simp only [overflows, hneg, if_false]
+    simp only [hm0, if_false, e1, e2, e3, e4, if_true, roundPos, hxe, hov, Bool.false_eq_true]
+  · simp only [roundAt, hneg, if_false, Nat.mod_one, Nat.div_one]
+    have : 1 ≤ 2 ^ (-x).toNat := Nat.pow_pos (by decide)
+    have : s * 10 ^ 0 ≤ s * 10 ^ 0 * 2 ^ (-x).toNat := Nat.le_mul_of_pos_right _ this
+    split <;> omega
+
 end SigModel.Lemmas.C16
